@@ -61,9 +61,9 @@ var (
 	poolTags         = []string{"auth", "list", "order", "tag", "", "my tag"}
 	poolBodies       = []string{`{"user_id": {{.request.auth_req.preprocessor.user_id}}}`, "<body/>", "", `{"item_id": {{.request.order_req.preprocessor.item}}}`,
 		"{\"a\": 1}\n", "line1\nline2\n", "a=1&b=2", "<a>\n  <b/>\n</a>\n"}
-	poolBodyLines   = []string{`{"user_id": {{.request.auth_req.preprocessor.user_id}}}`, "<body/>", "", "  indented", "a\tb", `{"login": "{{.request.auth_req.preprocessor.user.login}}"}`, "EOT x", "EOF"}
-	poolPreKeys     = []string{"user_id", "item", "new_var", "user", "my_uuid", "my_random_int"}
-	poolPreValues   = []string{"source.users[next].user_id", "source.users[next]", "request.list_req.postprocessor.items[rand]", "source.var_name[next].0", "source.users[last].id",
+	poolBodyLines = []string{`{"user_id": {{.request.auth_req.preprocessor.user_id}}}`, "<body/>", "", "  indented", "a\tb", `{"login": "{{.request.auth_req.preprocessor.user.login}}"}`, "EOT x", "EOF"}
+	poolPreKeys   = []string{"user_id", "item", "new_var", "user", "my_uuid", "my_random_int"}
+	poolPreValues = []string{"source.users[next].user_id", "source.users[next]", "request.list_req.postprocessor.items[rand]", "source.var_name[next].0", "source.users[last].id",
 		"uuid()", "randInt(100, 200)", "randString(10, abcde)", "randInt(100, .request.my_req_name.postprocessor.var_from_response)"}
 	poolJsonpathKeys   = []string{"token", "item_id", "items", "new_var"}
 	poolJsonpathValues = []string{"$.auth_key", "$.items[0]", "$.items", "$..book[?(@.price<10)]", "$['a b']"}
@@ -73,10 +73,10 @@ var (
 	poolSizeOps        = []string{"eq", "=", "lt", "<", "gt", ">"}
 	poolStatusCodes    = []int{200, 201, 204, 301, 404, 500, 0, 1, 999, -1}
 
-	poolCalls     = []string{"target.TargetService.Auth", "target.TargetService.List", "target.TargetService.Order", "target.TargetService.Hello", "pkg.Svc/Method"}
-	poolMetaKeys  = []string{"metadata", "authorization", "x-trace-id", "user-agent"}
-	poolMetaVals  = []string{"server.proto", "{{.request.auth_req.postprocessor.token}}", "yandex", ""}
-	poolPayloads  = []string{`{"login": "{{.request.auth_req.preprocessor.user.login}}", "pass": "{{.request.auth_req.preprocessor.user.pass}}"}`, `{"token": "{{.request.auth_req.postprocessor.token}}"}`,
+	poolCalls    = []string{"target.TargetService.Auth", "target.TargetService.List", "target.TargetService.Order", "target.TargetService.Hello", "pkg.Svc/Method"}
+	poolMetaKeys = []string{"metadata", "authorization", "x-trace-id", "user-agent"}
+	poolMetaVals = []string{"server.proto", "{{.request.auth_req.postprocessor.token}}", "yandex", ""}
+	poolPayloads = []string{`{"login": "{{.request.auth_req.preprocessor.user.login}}", "pass": "{{.request.auth_req.preprocessor.user.pass}}"}`, `{"token": "{{.request.auth_req.postprocessor.token}}"}`,
 		`{"name": "x"}`, "{}", "{\"a\": 1}\n", "{\n  \"user_id\": 1\n}\n"}
 	poolGrpcAssert = []string{"token", "result", "", "\"ok\""}
 	poolGrpcCodes  = []int{200, 0, 13, 400, 500, 404}
